@@ -394,4 +394,26 @@ example : ∀ e ∈ (run 1 (exEvict ++ [.present 50000 0 0 exA.length exA 2])).2
     · exact exEvict_wf o h
     · simp at h; subst h; exact Or.inl (by decide))
 
+/-! ## why presented nonces are asked to be NUL-free -/
+
+/-- a 76-character nonce made at t = 1000 -/
+def exL : Bytes := mkNonce (List.replicate 64 99) 1000
+/-- 76 bytes that were never registered: the 44-character nonce `exA`, a NUL, and the
+    bytes the longer nonce `exL` left behind in the slot buffer -/
+def exAlias : Bytes := exA ++ 0 :: exL.drop 45
+
+/-- Witness (kernel-evaluated on the model; the real code answers the same in the
+    correspondence run): register the long nonce L, use it, let the short nonce A
+    take the slot.  memcpy leaves L's tail behind A's terminating NUL, so the
+    never-registered byte string `A ++ [NUL] ++ tail(L)` compares equal to the slot
+    and is accepted by check_nonce_nc (and then shares A's window).  This is outside
+    the property's domain — the request parser rejects NUL in a field value or
+    turns it into a space before the Authorization header is looked at — and is
+    the reason for the `NoNul` hypothesis in `at_most_once`, `never_issued`,
+    `accepted_counts_bounded`. -/
+theorem nul_alias_witness :
+    addCount (run 1 [.add 1000 exL, .check exL 1000 1, .add 1000 exA]).2 exAlias = 0 ∧
+    (step (run 1 [.add 1000 exL, .check exL 1000 1, .add 1000 exA]).1 (.check exAlias 1000 1)).2 = .ok := by
+  decide +kernel
+
 end Mhd.C13
